@@ -12,8 +12,10 @@ from ..steplib import Inst, micro_summary
 
 ID = 'C02'
 ALL = [cg.BASIC, cg.COMPOUND, cg.ORTH, cg.FINAL, cg.SH, cg.DH]
-B, C, O = cg.BASIC, cg.COMPOUND, cg.ORTH
+B, C, O, D = cg.BASIC, cg.COMPOUND, cg.ORTH, cg.DH
 TEMPLATES = {
+    # root{Z, O||{P{a,b,H*}, R2{x,y}}}: deep history inside a region that is exited together with its sibling
+    'TN3': {'N': 10, 'par': [-1, 0, 0, 2, 3, 3, 3, 2, 7, 7], 'kind': [C, B, O, C, B, B, D, C, B, B]},
     # root{idle, work||{wa||{a1,a2}, wb{b1{b11}}}}: nested orthogonal states, one region deeper than the other
     'TN1': {'N': 9, 'par': [-1, 0, 0, 2, 3, 3, 2, 6, 7], 'kind': [C, B, O, O, B, B, C, C, B]},
     # root||{p||{p1{x,y}, p2}, q{q1, q2}}: orthogonal root with a nested orthogonal region
@@ -25,6 +27,8 @@ LEVELS = {
         {'name': 'L2-N4-M1-K2', 'N': 4, 'M': 1, 'K': 2, 'namings': ['id'], 'budget_s': 60},
         {'name': 'L3-N4-M2-K1', 'N': 4, 'M': 2, 'K': 1, 'namings': ['rev'], 'budget_s': 120},
         {'name': 'L4-TN-M1-K2', 'templates': ['TN1', 'TN2'], 'M': 1, 'K': 2, 'namings': ['id', 'rev'], 'budget_s': 40},
+        {'name': 'L5-TN3-M2-K3', 'templates': ['TN3'], 'M': 2, 'K': 3, 'namings': ['id', 'rev'], 'nevents': 1, 'hist_target': 1,
+         'budget_s': 60},
     ],
     'thorough': [
         {'name': 'L1-N3-M3-K3', 'N': 3, 'M': 3, 'K': 3, 'namings': ['id', 'rev'], 'budget_s': 300},
@@ -47,7 +51,8 @@ def shards(level):
     if 'templates' in level:
         out = []
         for name in level['templates']:
-            out.extend(dict(sh, template=name) for sh in cg.split_shards([dict(TEMPLATES[name])], level['M']))
+            out.extend(dict(sh, template=name) for sh in cg.split_shards([dict(TEMPLATES[name])], level['M'],
+                                                                          nevents=level.get('nevents', 2)))
         return out
     sk = cg.skeletons(level['N'], ALL)
     return cg.split_shards(sk, level['M'])
@@ -57,7 +62,8 @@ def expand(job, level):
     if 'chart' in job:
         yield job['chart']
         return
-    yield from cg.charts(job['skel'], level['M'], nevents=2, targets='free', fix=job.get('fix'))
+    yield from cg.charts(job['skel'], level['M'], nevents=level.get('nevents', 2), targets='free', fix=job.get('fix'),
+                         hist_target=bool(level.get('hist_target')))
 
 
 def canary_job():
